@@ -967,6 +967,36 @@ impl History {
                             let m = model.get_mut(&id).unwrap();
                             m.1 = m.0.search(&q);
                         }
+                        if !via_bridge && cx.rng.chance(1, 10) {
+                            // a locale switch: the id is destroyed, created again under another language with the same
+                            // records, and sent the very same text, with nothing else in between
+                            let old = model.remove(&id).unwrap().0;
+                            let newlang: &'static str = LANGS[((hstr(&q) as usize + opk) % LANGS.len()) as usize];
+                            let recs_now: Vec<(usize, String, usize)> = old.store.records.iter().map(|r| (r.id, r.title.source.iter().filter(|c| **c != '\0').collect::<String>(), r.rating)).collect();
+                            hist.push(format!("destroy({}) create({}, lang {}) {} adds search({},{:?})", id, id, newlang, recs_now.len(), id, q));
+                            cx.ctx(format!("C20 lang={} history={:?}", lang, hist));
+                            destroy_store(id);
+                            create_store(id, take_lang(newlang));
+                            let mut fresh = St::new(newlang, DEFAULT_LIMIT, ("[", "]"));
+                            for r in &recs_now {
+                                add_record(id, r.0, &r.1, r.2);
+                                fresh.add(r);
+                            }
+                            run_search(id, &q);
+                            let hits = if model_apart {
+                                let q2 = q.clone();
+                                let (f2, h) = on_new_thread(move || {
+                                    let h = fresh.search(&q2);
+                                    (fresh, h)
+                                });
+                                fresh = f2;
+                                h
+                            } else {
+                                fresh.search(&q)
+                            };
+                            model.insert(id, (fresh, hits));
+                            cx.count("ids destroyed and created again under another language, then sent the same text");
+                        }
                         let m = model.get_mut(&id).unwrap();
                         cx.count("searches");
                         if cx.rng.chance(1, 4) {
@@ -1107,7 +1137,7 @@ impl Prop for History {
         match self.0 {
             Which::NoCrash => vec![("searches", 20000, 200000), ("searches with hits", 5000, 50000), ("joined-record hits (two spans from a one-word query)", 50, 500), ("non-ASCII queries", 2000, 20000), ("limit 0", 200, 2000), ("limit 65536", 200, 2000), ("histories with boundary-value record ids", 2000, 20000), ("long-text searches", 500, 5000), ("long-text searches with a query over 255 characters", 100, 1000), ("corpus-store searches", 300, 3000), ("long-text cases with a giant word or a 1000+ word title", 20, 200), ("soak searches on one store", 600000, 2500000), ("most searches on one store max ", 66000, 66000), ("soak stores with more than 2^16 records", 2, 8), ("adds re-using the id of an earlier record", 5000, 50000), ("registry: searches", 10000, 300000), ("registry: searches with hits", 1500, 45000), ("registry: limit changes", 5000, 150000), ("registry: readers that call back into the registry", 1500, 45000)],
             Which::NoStale => vec![("search after add following an earlier search", 2000, 20000), ("search after clear following an earlier search", 500, 5000), ("search after limit following an earlier search", 500, 5000), ("empty-query search after a mutation following an earlier search", 1000, 10000), ("exhaustive histories", 20000, 200000), ("histories on a crowded store", 2000, 20000), ("histories that clear and refill a crowded store", 2000, 20000), ("histories growing a store past 64/128/256/512 records with searches in between", 200, 5000), ("histories growing a store past 1024 records with searches in between", 60, 1500), ("soak searches on one store", 1000000, 4000000), ("search repeating the previous query after a mutation", 2000, 20000), ("operations on another store of the same thread inside a history", 3000, 30000), ("registry-driven searches compared with a fresh store", 5000, 50000), ("adds re-using the id of an earlier record", 3000, 30000), ("histories whose searches run on other threads than the adds (the store is moved there and back)", 1500, 15000), ("histories whose reference stores are built and searched on threads of their own", 3000, 30000), ("histories with a very long word next to a threshold match", 2000, 20000), ("histories with more than twenty fully tied records and a shrinking limit", 2000, 20000)],
-            Which::Registry => vec![("observations", 20000, 200000), ("observations with >= 2 live ids holding results", 2000, 20000), ("destroy", 300, 3000), ("searches", 3000, 30000), ("histories over 4-20 store ids", 1000, 10000), ("bursts of 45-120 records", 300, 3000), ("stores created with another language than their neighbours", 3000, 30000), ("searches repeating the text just sent to another id", 2000, 20000), ("histories whose result buffers are read only now and then", 5000, 50000), ("reads that add a record from inside the reader", 5000, 50000), ("searches repeated on the same id after a limit change", 5000, 50000), ("stores emptied in place through using_store", 2000, 20000), ("histories whose model stores answer on threads of their own", 5000, 50000), ("searches repeating the text this id was sent last", 3000, 30000)],
+            Which::Registry => vec![("observations", 20000, 200000), ("observations with >= 2 live ids holding results", 2000, 20000), ("destroy", 300, 3000), ("searches", 3000, 30000), ("histories over 4-20 store ids", 1000, 10000), ("bursts of 45-120 records", 300, 3000), ("stores created with another language than their neighbours", 3000, 30000), ("searches repeating the text just sent to another id", 2000, 20000), ("histories whose result buffers are read only now and then", 5000, 50000), ("reads that add a record from inside the reader", 5000, 50000), ("searches repeated on the same id after a limit change", 5000, 50000), ("stores emptied in place through using_store", 2000, 20000), ("histories whose model stores answer on threads of their own", 5000, 50000), ("searches repeating the text this id was sent last", 3000, 30000), ("ids destroyed and created again under another language, then sent the same text", 3000, 30000)],
         }
     }
     fn run(&self, cx: &mut Cx, stream: &str, idx: u64) {
